@@ -138,11 +138,22 @@ def main():
     # 4/5. correspondence and oracle search on the real code
     try:
         res = plug.run(ctx)
-    except Exception:
+    except Exception as exc:
         traceback.print_exc()
-        print("infrastructure error in correspondence/oracle harness")
-        ctx.close()
-        return 2
+        frames = traceback.extract_tb(exc.__traceback__)
+        in_repo = [f for f in frames if os.path.abspath(f.filename).startswith(os.path.abspath(common.REPO) + os.sep)]
+        if not in_repo:
+            print("infrastructure error in correspondence/oracle harness")
+            ctx.close()
+            return 2
+        # the real code raised where the harness does not expect it: the correspondence
+        # can no longer be executed, which counts as a broken tie (never as exit 2)
+        last = in_repo[-1]
+        ctx.tie_broken.append({"kind": "harness-crash-in-repo-code",
+                               "error": f"{type(exc).__name__}: {str(exc)[:300]}",
+                               "at": f"{os.path.relpath(last.filename, common.REPO)}:{last.lineno} in {last.name}"})
+        res = Result()
+        res.rule = "harness aborted by an unexpected exception raised inside /repo code"
     ctx.close()
     for d in res.disagreements:
         ctx.tie_broken.append({"kind": "correspondence", **d})
